@@ -54,7 +54,9 @@ func (f *OrefaFile) Chdir() error {
 		return &fs.PathError{Op: op, Path: f.name, Err: err}
 	}
 
-	_ = f.vfs.SetCurDir(f.name)
+	// the current directory is always an absolute path.
+	absPath, _ := f.vfs.Abs(f.name)
+	_ = f.vfs.SetCurDir(absPath)
 
 	return nil
 }
